@@ -271,7 +271,7 @@ EXCH_UNITS = {
 }
 EXCH_FAMILIES = []
 for _un, (_rq, _rs) in sorted(EXCH_UNITS.items()):
-    for _dn, _dc in (('auto', {'AUTO_DESTROY': 1}), ('app', {'AUTO_DESTROY': 0, 'DESTROY_DONE': 1}), ('keep', {'AUTO_DESTROY': 0})):
+    for _dn, _dc in (('auto', {'AUTO_DESTROY': 1}), ('app', {'AUTO_DESTROY': 0, 'DESTROY_DONE': 1}), ('keep', {'AUTO_DESTROY': 0}), ('stream', {'AUTO_DESTROY': 1, 'DESTROY_DONE': 2})):
         _name = 'exch_%s_%s' % (_un, _dn)
         FAMILIES[_name] = ('exch', dict(_dc, LOG_LEVEL=-1, URLENC_PARSER=1, MAX_TX=10000000), (_rq, _rs))
         EXCH_FAMILIES.append(_name)
@@ -299,6 +299,10 @@ def make_case(name, k, delivery):
         if delivery == 'whole':
             # all requests pipelined in one call, then all responses in one call
             ops = [(REQ, b''.join(rq % i for i in range(k))), (RES, rs * k)]
+        elif delivery == 'bytes':
+            # deep pipelining: all requests in one call, then the responses one call each - every finished transaction is disposed of
+            # (and, where the application does that, its slot recycled with htp_connp_tx_freed) while k - i others are outstanding
+            ops = [(REQ, b''.join(rq % i for i in range(k)))] + [(RES, rs)] * k
         else:
             # keep-alive: one exchange after the other
             ops = []
@@ -337,7 +341,7 @@ def run(tier):
     ladder = [256, 512, 1024, 2048, 4096] if tier == 'quick' else [256, 512, 1024, 2048, 4096, 8192, 16384, 32768, 65536]
     jobs = []
     for name in sorted(FAMILIES):
-        for delivery in (('whole', 'kilo') if name.startswith('hv_') or name.startswith('exch_') else ('whole', 'bytes', 'kilo')):
+        for delivery in (('whole', 'kilo') if name.startswith('hv_') else ('whole', 'bytes', 'kilo')):
             lad = ladder if delivery != 'bytes' else ladder[:5 if tier == 'quick' else 7]
             jobs.append((name, delivery, lad))
     nsh = fw.NPROC
